@@ -93,3 +93,28 @@ contract(f"{DB}::DatabaseService.receive", props=["C17"], types={"payload": "Dic
                                                        " old(payload.get('connection_id') in self._connections) and event_arg(i, 1) == old(payload['connection_id'])))"),
                   ("connect_only_on_request", "forall(i, old(n_events()), n_events(), implies(event_kind(i) == ev('connect'), old(payload['type']) == 'connect_request' and event_arg(i, 1) == old(payload.get('password'))))")],
          modifies=["heap"], allocates=True)
+
+# ---- restore: "restoring a backup that was taken while the data was healthy returns the database file to good health" ------------------------
+# The downloaded backup replaces the database file: FileSystem.copy_file copies through pydantic's model_dump (outside the subset), so the
+# copy is an assumed contract that leaves a ghost event, and what is proved about restore_backup is that it reports success only after
+# that copy of downloads/database.db into the database folder, and that the service is then in good health.
+FSY = "src/primaite/simulator/file_system/file_system.py"
+contract("src/primaite/simulator/system/services/ftp/ftp_client.py::FTPClient.request_file", verify=False,
+         note="download over the simulated network (FTP client/server, sessions, links): any effect on the heap; whether it succeeded is the result",
+         ensures=[], modifies=["heap"], exact_events=True, allocates=True)
+contract(f"{FSY}::FileSystem.copy_file", verify=False,
+         note="copies a file into another folder by re-creating it from model_dump() (pydantic reflection, outside the subset); leaves a ghost event",
+         ensures=[], modifies=["heap"], emits=[("copy_file", ["src_folder_name", "src_file_name", "dst_folder_name"])], exact_events=True, allocates=True)
+contract(f"{FSY}::FileSystem.restore_file", verify=False, note="restores a file in place (C15 covers Folder.restore_file); here: any effect on the heap, no copy",
+         ensures=[], modifies=["heap"], exact_events=True, allocates=True)
+dispatch_contract(f"{FSY}::FileSystem.delete_file", ensures=[], modifies=["heap"], exact_events=True, allocates=True)
+contract(f"{DB}::DatabaseService.restore_backup", props=["C17"],
+         # the structural preconditions of FileSystem.delete_file (C15) are not carried across the download, which may do anything:
+         # the call is taken at its call-site contract (any effect on the heap)
+         use_dispatch=["delete_file"],
+         requires=["self.software_manager is not None", "self.file_system is not None"],
+         ensures=[("success_only_after_copying_the_backup_over", "implies(result, exists(i, old(n_events()), n_events(), event_kind(i) == ev('copy_file')"
+                                                                 " and event_arg(i, 0) == 'downloads' and event_arg(i, 1) == 'database.db' and event_arg(i, 2) == 'database'))"),
+                  ("service_healthy_after_restore", f"implies(result, self.health_state_actual == {HS}.GOOD)"),
+                  ("not_running_refused", "implies(old(self.operating_state) != ServiceOperatingState.RUNNING, result == False)")],
+         modifies=["heap"], allocates=True)
